@@ -166,6 +166,22 @@ Fixpoint shape_slice_go (nf : nat) (shape : list Z) (sls : list sl) : list lenre
 Definition shape_slice (shape : list Z) (sls : list sl) : list lenres :=
   shape_slice_go (nfill shape sls) shape sls.
 
+(* The variadic shape_slice / slice read `size_t si = at(shape, s_i)` at the top of EVERY part (slice.hpp:902, 1058),
+   also for an ellipsis; when the ellipsis is the last part and stands for zero axes, s_i = dim and the read is
+   past the end of the shape (std::vector / std::array: at() throws std::out_of_range).  The run-time list path tests
+   is_ellipsis first (slice.hpp:511) and does not read.  [rem] = number of source axes not yet consumed. *)
+Fixpoint var_oob_go (nf rem : nat) (sls : list sl) : bool :=
+  match sls with
+  | [] => false
+  | SEll :: r => Nat.eqb rem 0 || var_oob_go nf (rem - nf) r
+  | _ :: r => Nat.eqb rem 0 || var_oob_go nf (rem - 1) r
+  end.
+Definition var_oob (shape : list Z) (sls : list sl) : bool := var_oob_go (nfill shape sls) (length shape) sls.
+(* None = the call throws *)
+Definition shape_slice_variadic (shape : list Z) (sls : list sl) : option (list lenres) :=
+  if var_oob shape sls then None else Some (shape_slice shape sls).
+Definition shape_slice_dynamic (shape : list Z) (sls : list sl) : option (list lenres) := Some (shape_slice shape sls).
+
 (* slice (1055-1124) / dynamic_slice (650-730): source multi-index of result index idx *)
 Definition int_index (si i : Z) : Z := if i <? 0 then u64 (si - abs_i i) else u64 i.
 Fixpoint slice_go (nf : nat) (idx shape : list Z) (sls : list sl) : list Z :=
